@@ -228,6 +228,11 @@ class Verdict:
         return 'violation'
 
     def finish(self, level='model_checking'):
+        # a call into the code under test that never came back (watchdog of SimCluster) is never silent
+        sim = sys.modules.get('simcluster')
+        if sim is not None and sim.HUNG_TOTAL[0] and not self.violations:
+            self.violation(f'{sim.HUNG_TOTAL[0]} call(s) into the code under test did not return within '
+                           f'{sim.STEP_CPU_LIMIT} s of CPU (interrupted by the watchdog)', {'watchdog': sim.HUNG_TOTAL[0]})
         wall = time.time() - self.t0
         cov = self.cov
         cov['drift'] = len(self.drift)
